@@ -100,7 +100,7 @@ def run(tier):
                          ("groups", {"scenario": "tmpl", "numeric": False, "pnu": 4, "tmpl_loss": True}, 2400)):
         c = config(name)
         if th:
-            small = dict(c, MaxLen=c["MaxLen"] - 1)
+            small = dict(c, MaxLen=c["MaxLen"] - (2 if name == "groups" else 1))      # groups, 5 calls: > 1e8 states (timed out); 4 calls: 6.1M
             cc.model_check(chk, PID, name, small, ["InputModesInv"], PROPS, 3000, dump=False)
             cc.tlc.cleanup("%s_%s" % (PID, name))
         cc.sim_phase(chk, PID, name, c, MINE, n * (6 if th else 1), 8, ctx, nontrivial_fn=has_rewrite)
